@@ -2033,7 +2033,7 @@ class FST:
             return [s] if (s := OPCLS2STR.get(self.a.__class__, None)) else ['']  # for boolop or expr_context
 
         if is_root:
-            return self._get_src(loc.ln, loc.col, loc.end_ln, loc.end_col, True)  # note, elif cannot exist at root so we don't check for it
+            return self._get_src(*self.bloc, True)  # bloc like for any other node (decorators are part of the node), note, elif cannot exist at root so we don't check for it
 
         if docstr is None:
             docstr = FST.get_option('docstr')
